@@ -82,7 +82,9 @@ func NewIPv6Defragmenter() *IPv6Defragmenter {
 func (d *IPv6Defragmenter) DefragIPv6(ipv6 *layers.IPv6, fg *layers.IPv6Fragment) *layers.IPv6 {
 	d.lock.Lock()
 	defer func() {
-		d.container[fg.Identification].time = time.Now()
+		if f, ok := d.container[fg.Identification]; ok {
+			f.time = time.Now()
+		}
 		d.lock.Unlock()
 	}()
 	in := &fragment{
@@ -174,6 +176,8 @@ func (d *IPv6Defragmenter) DefragIPv6(ipv6 *layers.IPv6, fg *layers.IPv6Fragment
 		DstIP:        f.ipv6.DstIP,
 	}
 	l.Payload = b
+	// the datagram is complete: forget its fragments
+	delete(d.container, fg.Identification)
 	return l
 }
 
